@@ -53,6 +53,23 @@ def prefix_defect(p, r, path=()):
     return None
 
 
+def id_defect(p, r, path=()):
+    """None iff every expanded node of the DerivationTree p has the same id as the node of r at the same path
+    (call only after prefix_defect found the shapes compatible)"""
+    try:
+        if p.children is None:
+            return None
+        if p.id != r.id:
+            return "expanded node %r at %r had id %r and has id %r in the result" % (p.value, list(path), p.id, r.id)
+        for i, (a, b) in enumerate(zip(p.children, r.children or ())):
+            d = id_defect(a, b, path + (i,))
+            if d:
+                return d
+    except AttributeError:
+        return None
+    return None
+
+
 def open_paths(t):
     return [p for p, n in rt.nodes(t) if n[1] is None]
 
@@ -284,6 +301,7 @@ def judge(case):
                 if st == "raises":
                     bad("complete:raises:" + type(r).__name__, detail=str(r)[:300], rep=rep)
                     break
+                raw_result = r
                 r = as_tree(r, "complete")
                 if r is None:
                     break
@@ -297,6 +315,12 @@ def judge(case):
                 d = prefix_defect(t, r)
                 if d is not None:
                     bad("complete:input_part_changed", detail=d, result=r, rep=rep)
+                else:
+                    # "unchanged" under the library's own notion of equality: DerivationTree.__eq__ compares node ids,
+                    # and find_node / substitute address nodes by id -- every expanded node of the input keeps its id
+                    d = id_defect(dt, raw_result)
+                    if d is not None:
+                        bad("complete:input_node_identity_changed", detail=d, rep=rep)
                 # the input object must still be what was handed in (trees are immutable values)
                 if plain(rt.from_dt(dt)) != t:
                     bad("complete:input_object_modified", rep=rep)
